@@ -503,8 +503,23 @@ func genSWScenario(r *rand.Rand) *SWScenario {
 		case x < 17:
 			sc.Ops = append(sc.Ops, SWOp{Kind: "leave", Peers: somePeers()})
 		case x < 18:
-			sc.Ops = append(sc.Ops, SWOp{Kind: "offline"}, SWOp{Kind: "advance", Mins: []int{5, 45, sc.Interval}[r.Intn(3)]}, SWOp{Kind: "online"},
-				SWOp{Kind: "advance", Mins: 10}, SWOp{Kind: "settle"})
+			sc.Ops = append(sc.Ops, SWOp{Kind: "offline"}, SWOp{Kind: "advance", Mins: []int{5, 45, sc.Interval}[r.Intn(3)]})
+			if r.Intn(2) == 0 {
+				// things happen during the outage: the swarm shrinks (the node will measure a shorter prefix length when
+				// it is back), keys are handed over (queued while merely disconnected; kept for their regular slot, or
+				// - provide-once - dropped, once the node has declared itself offline)
+				if r.Intn(2) == 0 {
+					gone := []int{}
+					for p := 1; p <= sc.NPeers; p++ {
+						if r.Intn(2) == 0 {
+							gone = append(gone, p)
+						}
+					}
+					sc.Ops = append(sc.Ops, SWOp{Kind: "leave", Peers: gone})
+				}
+				sc.Ops = append(sc.Ops, SWOp{Kind: []string{"start", "start", "once"}[r.Intn(3)], Keys: keys()}, SWOp{Kind: "advance", Mins: 3})
+			}
+			sc.Ops = append(sc.Ops, SWOp{Kind: "online"}, SWOp{Kind: "advance", Mins: 10}, SWOp{Kind: "settle"})
 		case x < 19 && r.Intn(2) == 0 && os.Getenv("VERIF_SW_FAILSEND") != "":
 			// (not generated by default: what is owed after partially failed deliveries could not be pinned down, DESIGN.md)
 			// provider records cannot be delivered for a while although lookups work
@@ -608,6 +623,43 @@ func genSWOutage(r *rand.Rand) *SWScenario {
 		SWOp{Kind: "advance", Mins: 12}, SWOp{Kind: "settle"})
 	for i := 0; i < 3; i++ {
 		sc.Ops = append(sc.Ops, SWOp{Kind: "advance", Mins: sc.Interval/2 + r.Intn(sc.Interval)}, SWOp{Kind: "settle"})
+	}
+	return sc
+}
+
+// genSWOfflineStart: a large swarm (long scheduled prefixes), keys in some regions; the node loses connectivity for
+// longer than the offline delay, the swarm shrinks to a third meanwhile, keys are started while the node is offline;
+// connectivity returns (a shorter prefix length is measured, the schedule is refreshed from the keystore) and
+// several cycles follow: every key started while offline has to be advertised at its regular slot at the latest.
+func genSWOfflineStart(r *rand.Rand) *SWScenario {
+	sc := &SWScenario{Seed: r.Int63(), R: 2 + r.Intn(3), NPeers: 40 + r.Intn(50), NKeys: 12 + r.Intn(16), Interval: 60, Workers: 3 + r.Intn(3)}
+	sc.K = sc.R
+	sc.MaxDelay = 15
+	for i := 1; i <= sc.NPeers; i++ {
+		sc.Initial = append(sc.Initial, i)
+	}
+	first, second := []int{}, []int{}
+	for k := 1; k <= sc.NKeys; k++ {
+		if r.Intn(3) == 0 {
+			first = append(first, k)
+		} else {
+			second = append(second, k)
+		}
+	}
+	if len(first) == 0 {
+		first, second = second[:1], second[1:]
+	}
+	gone := []int{}
+	for p := 1; p <= sc.NPeers; p++ {
+		if r.Intn(3) != 0 {
+			gone = append(gone, p)
+		}
+	}
+	sc.Ops = []SWOp{{Kind: "advance", Mins: 5}, {Kind: "settle"}, {Kind: "start", Keys: first}, {Kind: "advance", Mins: 70}, {Kind: "settle"},
+		{Kind: "offline"}, {Kind: "advance", Mins: 45}, {Kind: "leave", Peers: gone}, {Kind: "start", Keys: second}, {Kind: "advance", Mins: 3},
+		{Kind: "online"}, {Kind: "advance", Mins: 10}, {Kind: "settle"}}
+	for i := 0; i < 4; i++ {
+		sc.Ops = append(sc.Ops, SWOp{Kind: "advance", Mins: 65}, SWOp{Kind: "settle"})
 	}
 	return sc
 }
@@ -719,6 +771,8 @@ func TestSweep(t *testing.T) {
 				scs = append(scs, genSWOutage(r))
 			} else if i%10 == 6 && os.Getenv("VERIF_SW_NORESTART") == "" {
 				scs = append(scs, genSWRestart(r))
+			} else if i%10 == 8 {
+				scs = append(scs, genSWOfflineStart(r))
 			} else {
 				scs = append(scs, genSWScenario(r))
 			}
